@@ -9,7 +9,7 @@ CONSTANTS
   MaxOps = 2
   MaxMinted = 3
   EmitAt = 0
-  ProbeDepth = 0
+  ProbeDepth <- NoProbes
 INIT GInit
 NEXT GNextC
 VIEW GView
